@@ -5,14 +5,19 @@ Only the two root causes described in DESIGN §4 C20 are accepted:
   A  a cycle of >= 2 modules through the ENTRY module: rejected(...) or wrong-run(ModuleNotFoundError)
   B  a module other than the entry imports ITSELF and a name is read through that import at run time:
      wrong-run(AttributeError)  (the self-import is bound to the running script's module object)
+  C  a cycle below the entry that is longer than 2 modules, or that is entered at more than one of its
+     members: rejected(...) -- and for the multi-entry 2-cycle the verdict depends on the SCHEDULE
+     (schedule-dependent-result): which member the analysis threads reach first decides whether the other
+     member's names are visible
 Anything else in the evidence is printed and NOT listed (it must be triaged by hand).   cwd = /verif"""
 import json
 ev = json.load(open("evidence/C20.json"))
-entry, selfimp, other = [], [], []
+entry, selfimp, below, other = [], [], [], []
 try:
     old = json.load(open("known_findings.d/C20.json"))["findings"]
     entry += old[0]["keys"]
     selfimp += old[1]["keys"]
+    below += old[2]["keys"]
 except Exception:
     pass
 for cl, info in sorted(ev["coverage"]["graph_classes"].items()):
@@ -20,6 +25,8 @@ for cl, info in sorted(ev["coverage"]["graph_classes"].items()):
         key = f"{sym}:{cl}"
         if "entry-on-" in cl and (sym.startswith("rejected(") or sym == "wrong-run(ModuleNotFoundError)"):
             entry.append(key)
+        elif "-cycle-entered-" in cl and not ("2-cycle-entered-at-1-from-1" in cl) and (sym.startswith("rejected(") or sym == "schedule-dependent-result"):
+            below.append(key)
         elif "+self-import" in cl or cl.endswith(":self-import"):
             if sym == "wrong-run(AttributeError)":
                 selfimp.append(key)
@@ -34,6 +41,9 @@ kf = {"findings": [
     {"property": "C20", "name": "self-import-of-an-imported-module-is-bound-to-the-running-script", "keys": sorted(set(selfimp)),
      "witness": {"main.er": 'a_ = import "a"\nprint! "init main"\nprint! "main via a sees a", a_.f_a()\n', "a.er": 'a_ = import "a"\nprint! "init a"\n.fv(): Int = 1\n.f_a(): Int = a_.fv()\n'},
      "what": "a module other than the entry that imports itself is accepted, but at run time the self-import names the running script's module object: reading a public name through it raises AttributeError: module '__main__' has no attribute 'fv'"},
+    {"property": "C20", "name": "longer-or-multi-entry-cycle-below-the-entry-is-rejected-depending-on-the-schedule", "keys": sorted(set(below)),
+     "witness": {"graph": "main>a,main>c,a>b,b>a,c>b", "schedule_dependent": "default schedule: rejected with `Module(\"b.er\") object has no attribute fv`; the schedule that differs from it in its last free choice (which analysis thread is resumed at a thread end): accepted"},
+     "what": "a 2-cycle below the entry whose two members are each imported from outside the cycle, and cycles of three or more modules below the entry, are rejected (`Module(\"b.er\") object has no attribute fv`); for the multi-entry 2-cycle the same project is ACCEPTED under another schedule of the analysis threads, i.e. the compile result depends on thread timing (also a C19 matter; found by the bound-0 schedule exploration)"},
 ], "fixed": []}
 json.dump(kf, open("known_findings.d/C20.json", "w"), indent=1)
-print(len(set(entry)), "+", len(set(selfimp)), "keys written;", "NOT listed (triage by hand):", other)
+print(len(set(entry)), "+", len(set(selfimp)), "+", len(set(below)), "keys written;", "NOT listed (triage by hand):", other)
